@@ -543,8 +543,10 @@ func callSSA(i *interpreter, caller *frame, callpos token.Pos, fn *ssa.Function,
 	if caller != nil {
 		fr.g = caller.g
 	}
-	if fn.Parent() == nil {
-		if ext := findExternal(fn); ext != nil {
+	if fn.Parent() == nil && skipExternalOnce == fn {
+		skipExternalOnce = nil // a model asked for the real body of fn
+	} else if fn.Parent() == nil {
+		if ext := findExternalCached(fn); ext != nil {
 			if i.mode&EnableTracing != 0 {
 				fmt.Fprintln(os.Stderr, "\t(external)")
 			}
@@ -563,12 +565,12 @@ func callSSA(i *interpreter, caller *frame, callpos token.Pos, fn *ssa.Function,
 		panic("interp requires ssa.BuilderMode to include InstantiateGenerics to execute generics")
 	}
 	if EX != nil && !i.initializing {
-		if !EX.Funcs[fn.String()] {
-			EX.Funcs[fn.String()] = true
+		if n := fnName(fn); !EX.Funcs[n] {
+			EX.Funcs[n] = true
 		}
 	}
 
-	fr.env = make(map[ssa.Value]value)
+	fr.env = make(map[ssa.Value]value, envSize(fn))
 	fr.block = fn.Blocks[0]
 	fr.locals = make([]value, len(fn.Locals))
 	for i, l := range fn.Locals {
@@ -589,6 +591,50 @@ func callSSA(i *interpreter, caller *frame, callpos token.Pos, fn *ssa.Function,
 		fr.locals[i] = bad{}
 	}
 	return fr.result
+}
+
+// skipExternalOnce makes the next callSSA of this function bypass the externals table (used by
+// models that fall through to the real body).
+var skipExternalOnce *ssa.Function
+
+var (
+	funcSeen = map[*ssa.Function]bool{}
+	envSizes = map[*ssa.Function]int{}
+	extCache = map[*ssa.Function]externalFn{}
+	extNone  = map[*ssa.Function]bool{}
+)
+
+// envSize returns the number of SSA values of fn (to pre-size the frame environment).
+func envSize(fn *ssa.Function) int {
+	if n, ok := envSizes[fn]; ok {
+		return n
+	}
+	n := len(fn.Params) + len(fn.FreeVars) + len(fn.Locals)
+	for _, b := range fn.Blocks {
+		for _, in := range b.Instrs {
+			if _, ok := in.(ssa.Value); ok {
+				n++
+			}
+		}
+	}
+	envSizes[fn] = n
+	return n
+}
+
+func findExternalCached(fn *ssa.Function) externalFn {
+	if e, ok := extCache[fn]; ok {
+		return e
+	}
+	if extNone[fn] {
+		return nil
+	}
+	e := findExternal(fn)
+	if e == nil {
+		extNone[fn] = true
+	} else {
+		extCache[fn] = e
+	}
+	return e
 }
 
 // isEnginePanic reports whether a recovered value must unwind through target frames without
